@@ -544,7 +544,11 @@ class X12LoopDataNode(X12DataNode):
         ret.end_loops = list(self.end_loops)
         ret.parent = self.parent
         for child in self.children:
-            ret.children.append(child.copy())
+            if child.type is None:
+                continue  # deleted, waiting for cleanup
+            child_copy = child.copy()
+            child_copy.parent = ret
+            ret.children.append(child_copy)
         return ret
 
     @property
